@@ -46,7 +46,14 @@ func randUnicodeString(r *rand.Rand) string {
 	n := r.Intn(12)
 	var b strings.Builder
 	for i := 0; i < n; i++ {
-		switch r.Intn(14) {
+		switch r.Intn(17) {
+		case 14:
+			b.WriteRune(rune(0x80 + r.Intn(0x80))) // Latin-1 supplement: 2-byte sequences that fit one byte as a rune
+		case 15:
+			// boundaries of the UTF-8 encoding lengths and of the planes
+			b.WriteRune([]rune{0x7f, 0x80, 0xff, 0x100, 0x7ff, 0x800, 0xd7ff, 0xe000, 0xfffd - 1, 0xffff, 0x10000, 0x10ffff, 0xa0, 0xe9, 0xfc}[r.Intn(15)])
+		case 16:
+			b.WriteRune(rune(0x100 + r.Intn(0x700))) // other 2-byte sequences
 		case 0:
 			b.WriteRune('"')
 		case 1:
